@@ -19,7 +19,12 @@ def run(c):
         "the 5 s deadline is the code's own and is waited for in real time, a handful of scenarios per run in parallel with the session runs",
         "targets, checks and modifiers are the scripted ones of harness/internal/verifshim/vc03 (results are a function of the MAIL/RCPT addresses and the X-Vc03 header field); "
         "a target operation either returns nil or an error, it does not panic or block",
-        "one global check, one global modifier, per-domain destination blocks with 0-3 targets; no source blocks, no per-destination checks/modifiers, no nested pipelines",
+        "one global check, one global modifier, per-domain destination blocks with 0-3 targets; no source blocks, no per-destination checks/modifiers, no nested pipelines (op lines `C03 s`)",
+        "one-to-many rewriting (op lines `C03 x`): a scripted table modifier (vc03.XMod) at each of the three rewriting stages of msgpipelineDelivery.AddRcpt - global `modify`, `modify` of the source block, `modify` of every "
+        "destination block - with tables fixed per session (address -> 0-3 addresses, 8 ids x 3 routed domains + an unrouted one; ids 6 / 7 are refused by AddRcpt of target 0 / 1); the source-stage modifier hands out its stored "
+        "slice, the others a fresh one with varying spare capacity; commands are sent one at a time (no pipelining, DATA only); the model (xAddRcpt / xRun) takes the tables from the op line; the session-level success theorem "
+        "is proved for `C03 s` sessions, for `C03 x` the AddRcpt / Body / Commit level theorems (any tables, any state of the pipeline delivery) plus typestate and permits over whole sessions; "
+        "LMTP with targets that report per recipient: two different RCPT TO arguments sharing an effective address are not generated (KF-C09-1, as above)",
         "recipient rewriting: the scripted modifier rewrites alias forms of a recipient family (alias of an alias -> alias -> mailbox, a second alias -> mailbox, every step into the next routed domain; "
         "the fault fields are kept); the model runs on the RCPT TO argument (key of every status) and the domain of the EFFECTIVE address (rewriteRcpt: any table). Two DIFFERENT RCPT TO arguments "
         "delivered under ONE effective address to a target that reports per recipient (LMTP) are not generated: the pipeline's reverse translation is a map keyed by the effective address "
@@ -68,7 +73,12 @@ def run(c):
         "plus bucket-table histories (TestVerifC03BucketReap, op lines `C03 b`): endpoints whose ip / source bucket tables hold 1-3 buckets with a reap interval passing in virtual time, "
         "sessions that keep a transaction open per key, floods of sessions with fresh keys (incl. refusals by a full table), time steps shorter and longer than the interval, a second and third transaction of a held key "
         "(same address and domain, same address only, same domain only), transactions ended by DATA / RSET / QUIT / abrupt close in any order; after EVERY step the real limiter state (users and every semaphore of every bucket) "
-        "is compared with the transactions the client knows to be open, per scope and key, and with the Lean bucket model (BSt.steps)",
+        "is compared with the transactions the client knows to be open, per scope and key, and with the Lean bucket model (BSt.steps); "
+        "plus recipients that stand for SEVERAL effective addresses (TestVerifC03Fanout, op lines `C03 x`): pipelines built from configuration text with a one-to-many table modifier at the global, source-block and "
+        "destination-block stage (tables address -> 0-3 addresses generated stage by stage from what reaches the stage, expansion of the first / a middle / the last member of a list, members dropped, members routed by "
+        "different destination blocks, rejecting blocks, unrouted domains, AddRcpt refusals for single effective addresses), 1-3 recipients, 1-2 transactions, SMTP and LMTP, atomic and per-recipient targets, Body / per-recipient / "
+        "Commit failures; the monitor (c03XMonitor) computes the addresses an accepted recipient stands for from the tables alone and requires every one of them committed on every target of its block after a success reply "
+        "(C03/success-reply-not-committed), nothing committed after a refusal before the commit step, and no committed address that no recipient stands for (C03/committed-for-foreign-address)",
         explanation="theorems over all command lists, configurations, fault plans and fan-out orders; the model (go-smtp connection layer + Session + msgpipelineDelivery) is tied to the code by differential runs of whole sessions",
         search=search,
     )
